@@ -264,6 +264,19 @@ def argument(ctx, cfg, fs):
     cov = env_coverage(fs, body)
     ctx.ob('A.argument-precedence', 'take_argument:every-declared-variable', bool(cov) and all(v == 'all' for (_, v, _) in cov),
            'every variable declared with env() is consulted, in declaration order, until one is set: %s' % [d for (_, _, d) in cov], where=body.where(), cfg=cfg)
+    # known finding: nothing tells take_argument that the item was already taken from the line by an earlier iteration of
+    # a repetition, so many/some/last/count evaluate it once more, reach the variable, and an INVALID value there fails a
+    # run whose line supplied valid values
+    conds = set()
+    for e in envb:
+        for (a_, s_) in body.transitive_control_deps(e):
+            sw_ = Switch(body, a_)
+            rs_ = sw_.roots if sw_.kind != 'enum' else provenance(body, sw_.place, sw_.discr_site[0], sw_.discr_site[1], through=None)
+            for r in rs_:
+                conds.add('take_arg' if (r.kind == 'call' and (r.call.bb == ta.bb or r.call.is_(r'Try>::branch$'))) else '%s:%s' % (r.kind, r.what if r.kind != 'call' else short(r.call.name)))
+    other = sorted(c_ for c_ in conds if c_ != 'take_arg')
+    ctx.ob('R.repetition', 'take_argument:env-reconsulted-after-line-occurrences', bool(other),
+           'the environment lookup of take_argument depends only on %s: inside a repetition it runs again after the occurrences on the line are used up (no marker says the item was already matched)' % sorted(conds), where=body.where(envb[0]) if envb else body.where(), cfg=cfg)
     # Ok values: only from take_arg or the env lookup
     srcs = set(); good = True
     for i, k, st in body.stmts():
